@@ -761,7 +761,7 @@ func (d *driverCfg) writeEvidence(a *agg, wall time.Duration, nviol int, report 
 		"known_findings_hit":  a.known,
 		"runs_per_phase":      a.perMode,
 		"workers":             d.workers,
-		"components":          ei.components,
+		"components":          componentsFor(d.prop),
 		"violations_reported": report,
 		"cpu_seconds_in_runs": float64(a.wallUS) / 1e6,
 	}
@@ -792,6 +792,30 @@ type evInfo struct {
 }
 
 var evidenceInfo = map[string]evInfo{}
+
+// componentsFor tailors the real/stub table to what a property's runs actually use.
+func componentsFor(prop string) map[string]string {
+	m := map[string]string{}
+	for k, v := range stdComponents {
+		m[k] = v
+	}
+	switch prop {
+	case "C01", "C07", "C14":
+		m["goroutine scheduler"] = "not involved: these runs are single-task (the seams are in place, no scheduler is attached)"
+		m["sync.Pool"] = "stub: simulated pool, policy 'fresh only' (never reuses an object)"
+		m["Go map iteration order"] = "stub: canonical (sorted) order in every run"
+	case "C16":
+		m["goroutine scheduler"] = "not involved: histories are single-task"
+		m["kernel VFS"] = "real directory tree per worker, no faults injected in these runs"
+	case "C06":
+		m["goroutine scheduler"] = "bypassed in the 'concurrent with other builds' repetitions (seeded scheduler), not involved otherwise"
+		m["kernel VFS"] = "real directory tree per worker; byte faults are applied to the files BEFORE the build (no mid-build faults in these runs); all versions of a file carry one mtime"
+	case "C18":
+		m["kernel VFS"] = "real directory tree per worker, no faults injected in these runs; file accesses are scheduling points"
+		m["Go map iteration order"] = "stub: canonical (sorted) order in every run"
+	}
+	return m
+}
 
 var stdComponents = map[string]string{
 	"jsight-api-core":           "real code from /repo's working tree; os/sync/map-range call sites routed through simrt by the instrumenter",
